@@ -395,6 +395,23 @@ func checkC15(c *Case, s *Stats) error {
 			}
 			ic := intCodecs[c.Kind]
 			items = append(items, encItem{c.Kind, ic.enc, ic.conv(raw), leBytes(raw, ic.width), ic.conv(raw)})
+			// the encoders handed out by the selection helpers obey the same law
+			if c.Kind == "U16" || c.Kind == "U32" || c.Kind == "U64" {
+				val := ic.conv(raw)
+				sl := reflect.MakeSlice(reflect.SliceOf(reflect.TypeOf(val)), 1, 1)
+				sl.Index(0).Set(reflect.ValueOf(val))
+				e1, err1 := encode.EncoderOf(val)
+				e2, err2 := encode.GetSliceEltEncoder(sl.Interface())
+				e3, err3 := encode.EncoderByKind(reflect.TypeOf(val).Kind())
+				if err1 != nil || err2 != nil || err3 != nil {
+					return viol("encoder-selection", "no encoder for %T: EncoderOf: %v, GetSliceEltEncoder: %v, EncoderByKind: %v", val, err1, err2, err3)
+				}
+				for hi, he := range []encode.Encoder{e1, e2, e3} {
+					if err := encLaw(fmt.Sprintf("%s (selected by helper %d)", c.Kind, hi), he, val, leBytes(raw, ic.width), junk, val); err != nil {
+						return err
+					}
+				}
+			}
 			if raw>>(8*uint(w)-1)&1 == 1 {
 				nt = true
 			}
